@@ -292,15 +292,56 @@ harness("c03.comb", prop="C03", traced=("futures.zip", "futures.bool", "map", "c
         params=_cparams())(cbody)
 oracle("c03.comb")(ccheck)
 
+# ------------------------------------------------------------------ timeouts that fire
+def _tparams():
+    out = []
+    for touts in ((5.0, 2.0), (2.0, 5.0), (3.0, 3.0), (4.0, 1.0, 2.0)):
+        for api in ("executor", "f_timeout"):
+            out.append(dict(touts=touts, api=api))
+    return out
+
+
+def tbody(mc, p):
+    from more_executors._impl.timeout import TimeoutExecutor
+    base = ManualExecutor(mc, mode="hold")
+    ex = TimeoutExecutor(base, 100.0)
+    fs = []
+    for j, to in enumerate(p["touts"]):
+        if p["api"] == "executor":
+            f = ex.submit_timeout(to, lambda: None)
+        else:
+            f = F.f_timeout(ProbeFuture(mc, "in%d" % j), to)
+        f.add_done_callback(lambda _f, j=j: mc.emit("derived.done", j=j, snap=snapshot(_f)))
+        fs.append(f)
+    mc.sleep(20)
+    mc.observe(final=tuple(snapshot(f) for f in fs))
+
+
+def tcheck(x):
+    if not x.require(x.end == "done" and "final" in x.obs, "bad-ending", end=x.end):
+        return
+    for j, to in enumerate(x.p["touts"]):
+        d = [e for e in x.events("derived.done") if e["j"] == j]
+        x.require(x.obs["final"][j][0] == "cancelled", "not-timed-out", j=j, state=x.obs["final"][j][0])
+        if d:
+            x.require(d[0]["t"] <= to + TOL, "late-completion", layer="timeout",
+                      detail="future with timeout %r done at %r" % (to, d[0]["t"]), lateness=round(d[0]["t"] - to, 2))
+            x.require(d[0]["t"] >= to, "early-timeout", detail="timeout %r fired at %r" % (to, d[0]["t"]))
+
+
+from mc.kit import ManualExecutor  # noqa
+harness("c03.timeout_fires", prop="C03", traced=("timeout",), horizon=40, params=_tparams())(tbody)
+oracle("c03.timeout_fires")(tcheck)
+
 PLAN = {
     "quick": [dict(harness="c03.layers", bound=2),
               dict(harness="c03.lines.retry", bound=1), dict(harness="c03.lines.poll", bound=1),
               dict(harness="c03.lines.throttle", bound=1), dict(harness="c03.lines.timeout", bound=1),
               dict(harness="c03.lines.map", bound=1),
-              dict(harness="c03.comb", bound=2)],
+              dict(harness="c03.comb", bound=2), dict(harness="c03.timeout_fires", bound=1)],
     "thorough": [dict(harness="c03.layers", bound=3),
                  dict(harness="c03.lines.retry", bound=2), dict(harness="c03.lines.poll", bound=2),
                  dict(harness="c03.lines.throttle", bound=2), dict(harness="c03.lines.timeout", bound=2),
                  dict(harness="c03.lines.map", bound=2),
-                 dict(harness="c03.comb", bound=3)],
+                 dict(harness="c03.comb", bound=3), dict(harness="c03.timeout_fires", bound=2)],
 }
